@@ -9,13 +9,17 @@
 
 using namespace xsim;
 namespace hx_kfifo {
-enum { OP_PUSH = 1, OP_TRY_POP = 2, OP_POP = 3, OP_DRAIN = 4 };
+enum { OP_PUSH = 1, OP_TRY_POP = 2, OP_POP = 3, OP_DRAIN = 4, OP_BULK = 5 };
+enum { PR_LARGE = 1 };
 int g_vals[256];
 
 struct IKQ {
   virtual ~IKQ() = default;
   virtual bool push(int v) = 0;
   virtual bool pop(int kind, int& v) = 0;
+  // raw interface for the large-configuration scenario (values outside g_vals)
+  virtual bool push_raw(int* p) = 0;
+  virtual bool pop_raw(int kind, int*& p) = 0;
 };
 template <class Q>
 struct Unb : IKQ {
@@ -24,6 +28,18 @@ struct Unb : IKQ {
   bool push(int v) override {
     q.push(&g_vals[v]);
     return true;
+  }
+  bool push_raw(int* p) override {
+    q.push(p);
+    return true;
+  }
+  bool pop_raw(int kind, int*& p) override {
+    if (kind == OP_POP) {
+      auto r = q.pop();
+      if (r) p = *r;
+      return r.has_value();
+    }
+    return q.try_pop(p);
   }
   bool pop(int kind, int& v) override {
     if (kind == OP_POP) {
@@ -42,6 +58,15 @@ struct Bnd : IKQ {
   Q q;
   Bnd(uint64_t k, uint64_t segs) : q(k, segs) {}
   bool push(int v) override { return q.try_push(&g_vals[v]); }
+  bool push_raw(int* p) override { return q.try_push(p); }
+  bool pop_raw(int kind, int*& p) override {
+    if (kind == OP_POP) {
+      auto r = q.pop();
+      if (r) p = *r;
+      return r.has_value();
+    }
+    return q.try_pop(p);
+  }
   bool pop(int kind, int& v) override {
     if (kind == OP_POP) {
       auto r = q.pop();
@@ -125,18 +150,35 @@ public:
   int num_configs() const override { return NCFG; }
   const char* config_name(int i) const override { return cfgs[i].name; }
   const char* op_name(int k) const override {
-    static const char* n[] = {"?", "push", "try_pop", "pop", "drain_pop"};
-    return k >= 1 && k <= 4 ? n[k] : "?";
+    static const char* n[] = {"?", "push", "try_pop", "pop", "drain_pop", "bulk_fill_drain"};
+    return k >= 1 && k <= 5 ? n[k] : "?";
   }
   void generate(GenCtx& g, Program& p) override {
     p.config = (int)g.rng.below(NCFG);
     // the k-FIFO algorithms assume sequential consistency (known finding D14): weak executions only in the C03 campaign
     if (strcmp(g.mode, "C03") != 0) g.opt.W = 0;
+    // Large configurations (C06 quantifies over every k and segment count the constructor accepts, "including
+    // products above 2^16"): a few runs construct a bounded queue with k*segments just above 65536, fill it to
+    // capacity, drain it and move on past the index wrap-around, single-threaded (OP_BULK in setup), and then run
+    // an ordinary concurrent program on the same queue. Such a run costs as much as several hundred ordinary ones.
+    bool large = strcmp(g.mode, "C06") == 0 && g.rng.below(g.tier ? 8000 : 40000) == 0;
+    if (large) {
+      p.config = NCFG - 1 - (int)g.rng.below(2);
+      static const int ks[] = {1, 2, 3, 5, 16, 64, 257, 1024, 2048};
+      int k = ks[g.rng.below(sizeof ks / sizeof ks[0])];
+      int segs = 65536 / k + 1 + (int)g.rng.below(3);
+      int prefill = (int)g.rng.below(6);
+      int pre = (int)g.rng.below(4), post = (int)g.rng.below(2 * 3 + 4);
+      p.params = {k, segs, prefill, PR_LARGE, pre, post, g.rng.chance(50) ? OP_POP : OP_TRY_POP};
+      g.opt.W = 0;
+      g.opt.step_cap = 60000000;
+      if (k > 64) g.opt.rand_mode = 0; // a fixed start index makes every find_index a linear scan: k/2 steps per call
+    }
     bool b = cfgs[p.config].bounded;
-    int k = g.rng.range(1, b ? 3 : 4);
-    int segs = b ? g.rng.range(1, 4) : 0;
-    int prefill = (int)g.rng.below(b ? (size_t)(k * segs + 1) : 6);
-    p.params = {k, segs, prefill};
+    int k = large ? (int)p.params[0] : g.rng.range(1, b ? 3 : 4);
+    int segs = large ? (int)p.params[1] : (b ? g.rng.range(1, 4) : 0);
+    int prefill = large ? (int)p.params[2] : (int)g.rng.below(b ? (size_t)(k * segs + 1) : 6);
+    if (!large) p.params = {k, segs, prefill};
     int nt = g.rng.range(2, (g.tier || g.rng.chance(20)) ? 4 : 3);
     int maxops = g.tier ? 8 : 6;
     int next = prefill + 1;
@@ -156,11 +198,73 @@ public:
   void setup(const Program& p) override {
     cur = p.config;
     q = cfgs[p.config].make((uint64_t)p.params[0], (uint64_t)p.params[1]);
+    if (p.params.size() > 3 && p.params[3] == PR_LARGE) bulk(p);
     for (int v = 1; v <= p.params[2]; v++) {
       op_begin(OP_PUSH, v, 0, 0, OPF_LOCKFREE);
       bool ok = q->push(v);
       op_end(ok);
     }
+  }
+  // the large-configuration scenario: everything is checked inline (no operation runs concurrently, so the
+  // statement's sequential clauses apply exactly); recorded as one operation, each library call is subject to the
+  // solo-step rule on its own (a push that never returns is class solo-no-progress)
+  void bulk(const Program& p) {
+    const uint64_t k = (uint64_t)p.params[0], segs = (uint64_t)p.params[1];
+    const int64_t pre = p.params[4], post = p.params[5];
+    const int popkind = (int)p.params[6];
+    const uint64_t cap_lo = (segs - 1) * k + 1, cap_hi = segs * k;
+    op_begin(OP_BULK, (int64_t)k, (int64_t)segs, pre, OPF_LOCKFREE);
+    probe(0);
+    int* vals = new int[cap_hi + 2];
+    char* gone = new char[cap_hi + 2];
+    auto pair = [&](int64_t i) {
+      int* v = &vals[i % 7];
+      op_progress();
+      if (!q->push_raw(v)) xsim::fail("spurious-full", "large configuration k=%lu segments=%lu: try_push rejected on an empty queue", (unsigned long)k, (unsigned long)segs);
+      int* r = nullptr;
+      op_progress();
+      if (!q->pop_raw(popkind, r))
+        xsim::fail("lost-element", "large configuration k=%lu segments=%lu: pop reports empty although one value is stored and no operation runs concurrently", (unsigned long)k, (unsigned long)segs);
+      if (r != v) xsim::fail("invented-value", "large configuration: pop returned a pointer that is not the only stored value");
+    };
+    for (int64_t i = 0; i < pre; i++) pair(i);
+    uint64_t n = 0;
+    for (;; n++) {
+      if (n > cap_hi) xsim::fail("invented-value", "large configuration k=%lu segments=%lu: more than k*segments values accepted", (unsigned long)k, (unsigned long)segs);
+      gone[n] = 0;
+      op_progress();
+      if (!q->push_raw(&vals[n])) break;
+    }
+    if (n < cap_lo)
+      xsim::fail("spurious-full", "large configuration k=%lu segments=%lu: try_push rejected with %lu values stored, fewer than (segments-1)*k+1 = %lu, and no operation running concurrently",
+                 (unsigned long)k, (unsigned long)segs, (unsigned long)n, (unsigned long)cap_lo);
+    uint64_t lo = 0;
+    for (uint64_t j = 0; j < n; j++) {
+      int* r = nullptr;
+      op_progress();
+      if (!q->pop_raw(popkind, r))
+        xsim::fail("lost-element", "large configuration k=%lu segments=%lu: pop reports empty after %lu of %lu stored values were returned", (unsigned long)k, (unsigned long)segs,
+                   (unsigned long)j, (unsigned long)n);
+      if (r < vals || r >= vals + n) xsim::fail("invented-value", "large configuration: pop returned a pointer that was never pushed");
+      uint64_t idx = (uint64_t)(r - vals);
+      if (gone[idx]) xsim::fail("duplicated-element", "large configuration k=%lu segments=%lu: value %lu returned twice", (unsigned long)k, (unsigned long)segs, (unsigned long)idx);
+      uint64_t older = 0;
+      for (uint64_t i = lo; i < idx; i++) older += gone[i] ? 0 : 1;
+      if (older >= k)
+        xsim::fail("not-k-linearizable", "large configuration k=%lu segments=%lu: pop returned value %lu while %lu older values were still stored", (unsigned long)k, (unsigned long)segs,
+                   (unsigned long)idx, (unsigned long)older);
+      gone[idx] = 1;
+      while (lo < n && gone[lo]) lo++;
+    }
+    {
+      int* r = nullptr;
+      op_progress();
+      if (q->pop_raw(popkind, r)) xsim::fail("invented-value", "large configuration: pop succeeds on an empty queue");
+    }
+    for (int64_t i = 0; i < post; i++) pair(i);
+    delete[] vals;
+    delete[] gone;
+    op_end(1, (int64_t)n);
   }
   void exec(int, const Op& op) override {
     if (op.kind == OP_PUSH) {
@@ -198,7 +302,7 @@ public:
     long max_overtake = 0;
     for (int i = 0; i < c.hist.n; i++) {
       const OpRec& o = c.hist.ops[i];
-      if (o.status < 0) continue;
+      if (o.status < 0 || o.kind == OP_BULK) continue;
       if (c.hist.weak && o.status == 0) continue; // see bqueues.cpp: empty/full answers are not part of C03
       ops.push_back(i);
       sh = (sh ^ (uint64_t)(o.kind * 31 + o.status * 7 + o.r0)) * 1099511628211ULL;
@@ -254,6 +358,6 @@ public:
   }
 };
 KHarness h;
-struct Reg { Reg() { register_harness(&h); } } reg;
+struct Reg { Reg() { register_harness(&h); xsim::probe_name(0, "large_configuration_runs(k*segments>65536, filled to capacity)"); } } reg;
 } // namespace
 XSIM_MAIN()
